@@ -66,6 +66,14 @@ func c07Universe(c *Ctx) []*TS {
 		tTuple(tsStr, tsStr, tsStr), tTuple(tsStr, tsStr, tsNum), tTuple(tsStr, tsStr, tsStr, tsStr), tTuple(tsStr, tsStr, tsStr, tsNum),
 		tTuple(tsNum, tsStr, tsStr, tsStr), tTuple(tsStr, tsNum, tsStr, tsStr), tTuple(tsStr, tsStr, tsNum, tsStr),
 	)
+	// ... canonically equivalent spellings that hold no combining mark: conjoining Hangul jamo vs
+	// the precomposed syllable, singleton decompositions (ohm, angstrom, kelvin signs), a CJK
+	// compatibility ideograph
+	for _, pair := range [][2]string{{"\u1112\u1161\u11ab", "\ud55c"}, {"\u2126", "\u03a9"}, {"\u212b", "\u00c5"}, {"\u212a", "K"}, {"\uf900", "\u8c48"}, {"x\u2126y", "x\u03a9y"}} {
+		for _, n := range pair {
+			u = append(u, tObj(at(n, tsStr)), tObj(ato(n, tsStr)), tObj(at(n, tsStr), at("a", tsNum)), tList(tObj(at(n, tsNum))))
+		}
+	}
 	// ... plus attribute names that need care when written as text: quotes, backslashes,
 	// control characters, DEL, line separators, characters beyond the BMP, the last BMP code
 	// points, an empty name
